@@ -348,11 +348,14 @@ class RealFloat(numbers.Rational):
                 other = RealFloat.from_int(other)
             case float():
                 if math.isnan(other) or math.isinf(other):
+                    if self._c == 0 and math.isinf(other):
+                        # IEEE 754: 0 * Inf is invalid
+                        return math.nan
                     # Convert self to float and perform float arithmetic
                     other_sgn = math.copysign(1.0, other) # extract the sign bit
                     s = self._s != (other_sgn < 0)
                     res_sgn = -1.0 if s else 1.0
-                    return other * res_sgn
+                    return math.copysign(other, res_sgn)
                 else:
                     other = RealFloat.from_float(other)
             case Fraction():
